@@ -136,7 +136,11 @@ Definition store_response (q : request) (r : response) (url_key : bytes)
       (* cache.Set fails before reaching the backend when the body cannot be dumped *)
       if p_body_ok r1
       then SetEntry id (entry_of id r1 req_at recv_at) (SetRefs url_key (unique_refs refs') (Ret r1))
-      else SetRefs url_key (unique_refs refs') (Ret r1)
+      else
+        (* DumpResponse has consumed what the broken stream delivered: the caller is left with the
+           error and no bytes *)
+        SetRefs url_key (unique_refs refs')
+          (Ret {| p_status := p_status r1; p_hdr := p_hdr r1; p_body := -1; p_body_ok := false |})
   end.
 
 (* responseCache.GetRefs: null elements of a decoded index are dropped *)
